@@ -42,11 +42,18 @@ def handle (j : Json) : Except String Json := do
       match f with
       | Json.arr #[a, b, c] => pure (((← jNat a), (← jNat b), (← jNat c)) : TV.RevolveGrid.Face)
       | _ => throw "face expected"))) none
+    let loop ← fldD j "loop" jBool false
     let capOut := match cap with
       | none => []
-      | some T => [("cap_ok", ofBool (TV.RevolveGrid.capOk (per - 1) T)),
-                   ("open_raw", ofList ofFace (TV.RevolveGrid.openRaw per slices T)),
-                   ("open_closed", ofBool (TV.RevolveGrid.closedB (TV.RevolveGrid.openSurface per slices T)))]
+      | some T =>
+        if loop then
+          [("cap_ok", ofBool (TV.RevolveGrid.capOkC per T && TV.RevolveGrid.capInRange per T)),
+           ("open_raw", ofList ofFace (TV.RevolveGrid.openLoopRaw per slices T)),
+           ("open_closed", ofBool (TV.RevolveGrid.closedB (TV.RevolveGrid.openLoopRaw per slices T)))]
+        else
+          [("cap_ok", ofBool (TV.RevolveGrid.capOk (per - 1) T)),
+           ("open_raw", ofList ofFace (TV.RevolveGrid.openRaw per slices T)),
+           ("open_closed", ofBool (TV.RevolveGrid.closedB (TV.RevolveGrid.openSurface per slices T)))]
     pure <| obj ([("vol6", ofRat (revolveVol6 prof dirs)), ("formula", ofRat (dirSum dirs * profileSum prof)),
       ("faces", ofList ofFace (revolveFaces per slices nv (fun i => keep.getD i false)))] ++ capOut)
   | "box" =>
